@@ -146,6 +146,7 @@ fn scan_disk(l: &mut LogInner) -> DiskSnap {
             continue;
         }
         let md = match e.metadata() { Ok(m) => m, Err(_) => continue };
+        if md.is_dir() { continue; } // an obstacle put there by the harness (disk fault injection)
         let key = (md.len(), md.modified().unwrap_or(std::time::UNIX_EPOCH));
         let idx = l.torrent.index_of_hash_name(&name);
         if let Some((len, mt, ok)) = l.disk_cache.get(&name) {
@@ -306,6 +307,8 @@ pub struct SimCfg {
     pub linger_ms: u64,
     pub disk_on: fn(&EvKind) -> bool,
     pub seed: u64,
+    /// run in the client's (fresh, empty) directory before the session starts (fault injection on disk)
+    pub pre: Option<Box<dyn FnOnce(&Path)>>,
     /// closure-scripted tracker (overrides `tracker`): gets the announce number and the log
     pub tracker_fn: Option<Box<dyn FnMut(u64, &Log) -> TrackerStep>>,
     /// extra driver logic run inside the simulation (gets the ctl channel)
@@ -363,6 +366,8 @@ pub fn run_sim(cfg: SimCfg, scratch: &Path, wall_limit_s: u64) -> Outcome {
     let _ = std::fs::remove_dir_all(&dir);
     std::fs::create_dir_all(&dir).unwrap();
     std::env::set_current_dir(&dir).unwrap();
+    let mut cfg = cfg;
+    if let Some(pre) = cfg.pre.take() { pre(&dir); }
     let _ = panics::take();
     let rt = tokio::runtime::Builder::new_current_thread().enable_time().start_paused(true).build().unwrap();
     let local = tokio::task::LocalSet::new();
